@@ -112,6 +112,12 @@ func runCheck(prop, tier, repo, evdir string, verbose bool) int {
 	readJSON(filepath.Join(verifDir, "known_findings.json"), &known)
 	var notClaimed []NotClaimed
 	readJSON(filepath.Join(verifDir, "not_claimed.json"), &notClaimed)
+	mnc := func(name string) *NotClaimed {
+		ncMu.RLock()
+		l := notClaimed
+		ncMu.RUnlock()
+		return matchNotClaimed(l, prop, name)
+	}
 
 	eng, err := LoadEngine(repo, cfg.Packages, filepath.Join(verifDir, "gcv", "deps"))
 	if err != nil {
@@ -259,6 +265,23 @@ func runCheck(prop, tier, repo, evdir string, verbose bool) int {
 		if f.Unsupported != "" || f.ContractErr != "" {
 			continue
 		}
+		if j.sel.Kinds != "" {
+			// only obligations of the listed kinds are claimed for this selection; the others are generated, attempted
+			// once and listed as not claimed (the vacuity guard stays)
+			kr, err := regexp.Compile(j.sel.Kinds)
+			if err != nil {
+				fmt.Println("TOOL-ERROR bad kinds regexp in property config:", err)
+				return 2
+			}
+			for _, o := range f.Obligs {
+				if !o.IsCover && !kr.MatchString(o.Kind) {
+					ncMu.Lock()
+					notClaimed = append(notClaimed, NotClaimed{Property: prop, Re: "^" + regexp.QuoteMeta(o.Name) + "$",
+						Reason: "outside the obligation kinds claimed for this function (" + j.sel.Kinds + "): " + j.sel.Why})
+					ncMu.Unlock()
+				}
+			}
+		}
 		wg.Add(1)
 		go func(i int, f *FuncVC) {
 			defer wg.Done()
@@ -266,7 +289,7 @@ func runCheck(prop, tier, repo, evdir string, verbose bool) int {
 			defer func() { <-sem }()
 			t1 := time.Now()
 			results[i].vs = Solve(f, SolveOpts{TimeoutMs: timeout, WorkDir: work, Cross: tier == "thorough", NoRetry: func(n string) bool {
-				return matchKnown(known, prop, n) != nil || matchNotClaimed(notClaimed, prop, n) != nil
+				return matchKnown(known, prop, n) != nil || mnc(n) != nil
 			}})
 			if os.Getenv("GCV_TIMING") != "" {
 				fmt.Printf("timing %6.1fs %s (%d obligations)\n", time.Since(t1).Seconds(), f.Name, len(f.Obligs))
@@ -288,7 +311,7 @@ func runCheck(prop, tier, repo, evdir string, verbose bool) int {
 				if v == nil || v.Oblig.IsCover || v.Status == "unsat" || v.Status == "trivial" || v.Status == "sat" || v.Status == "error" {
 					continue
 				}
-				if matchKnown(known, prop, v.Oblig.Name) != nil || matchNotClaimed(notClaimed, prop, v.Oblig.Name) != nil {
+				if matchKnown(known, prop, v.Oblig.Name) != nil || mnc(v.Oblig.Name) != nil {
 					continue
 				}
 				wg2.Add(1)
@@ -337,7 +360,7 @@ func runCheck(prop, tier, repo, evdir string, verbose bool) int {
 				knownHit = append(knownHit, fmt.Sprintf("KNOWN-FINDING: property=%s %s", prop, kf.What))
 				continue
 			}
-			if nc := matchNotClaimed(notClaimed, prop, name); nc != nil {
+			if nc := mnc(name); nc != nil {
 				notClaimedHit = append(notClaimedHit, name+" — "+nc.Reason)
 				continue
 			}
@@ -363,7 +386,7 @@ func runCheck(prop, tier, repo, evdir string, verbose bool) int {
 				good = v.Status != "unsat"
 			}
 			rec := obRec{Name: o.Name, Kind: o.Kind, Func: f.Name, Status: v.Status, Solver: v.Solver, Ms: v.Ms, Where: eng.posString(o.Pos), Text: o.Text}
-			if nc := matchNotClaimed(notClaimed, prop, o.Name); nc != nil {
+			if nc := mnc(o.Name); nc != nil {
 				rec.Status = "not-claimed(" + v.Status + ")"
 				obs = append(obs, rec)
 				notClaimedHit = append(notClaimedHit, o.Name+" — "+nc.Reason)
@@ -551,6 +574,8 @@ func matchKnown(known []KnownFinding, prop, name string) *KnownFinding {
 	}
 	return nil
 }
+
+var ncMu sync.RWMutex
 
 func matchNotClaimed(ncs []NotClaimed, prop, name string) *NotClaimed {
 	for i := range ncs {
